@@ -15,13 +15,16 @@
 //   reports go to stderr (the check runs with halt_on_error=0 and collects).
 // selftest: as main, plus an injected unsynchronised counter on the path; the
 //   check requires ThreadSanitizer to flag it (proves the tool works here).
-// vmap-registered / vmap-unregistered: the experiment for the DESIGN.md C16
-//   observation: threads construct virtual_ptr<Animal>(derived object) under the
-//   vptr_map policy, for registered classes / for classes never registered.
+// vmap-registered: threads construct virtual_ptr<Animal>(derived object) under
+//   the vptr_map policy for registered classes only, nothing else running (the
+//   route that used unordered_map::operator[] before the library fix); part of
+//   every check run. The map must keep its size.
+// vmap-unregistered: same for classes never registered. A misuse (undefined
+//   behaviour with find(), insertion races with operator[]); kept for manual
+//   experiments only, never run by the check.
 #include "routes.hpp"
 
 #include <atomic>
-#include <csignal>
 #include <unistd.h>
 #include <cstdint>
 #include <cstdio>
@@ -175,8 +178,7 @@ using answers = std::vector<std::uint64_t>;
 C16_RUN(rel, c16::rel_policy, true)
 C16_RUN(dbg, c16::dbg_policy, true)
 C16_RUN(nohash, c16::nohash_policy, true)
-// the vptr_map constructor routes are exercised by the vmap-* modes only
-C16_RUN(vmap, c16::vmap_policy, false)
+C16_RUN(vmap, c16::vmap_policy, true)
 C16_RUN(ind, c16::ind_policy, true)
 
 struct world {
@@ -232,19 +234,25 @@ static std::vector<c16::Animal*> make_strays(std::integer_sequence<int, I...>) {
 }
 
 // The unregistered variant is a real race on the hash table: it can corrupt the
-// bucket chains and spin for ever. Give up after a few seconds, keeping the
-// ThreadSanitizer reports already written to stderr.
-static void vmap_alarm(int) {
-    static const char msg[] =
-        "RESULT vmap hung (hash table corrupted by the race; gave up after 8 s)\n";
-    ssize_t ignored = write(1, msg, sizeof(msg) - 1);
-    (void)ignored;
-    _exit(0);
+// bucket chains and spin for ever. A watchdog thread gives up after a few
+// seconds, keeping the ThreadSanitizer reports already written to stderr.
+static void vmap_watchdog() {
+    std::thread([] {
+        for (int i = 0; i < 60; ++i) {
+            usleep(100000);
+        }
+        static const char msg[] =
+            "RESULT vmap hung (hash table corrupted by the race; gave up after 6 s)\n";
+        ssize_t ignored = write(1, msg, sizeof(msg) - 1);
+        (void)ignored;
+        _exit(0);
+    }).detach();
 }
 
 static int vmap_experiment(bool registered, int threads, int iters) {
-    std::signal(SIGALRM, vmap_alarm);
-    alarm(8);
+    if (!registered) {
+        vmap_watchdog();
+    }
     update<c16::vmap_policy>();
     std::vector<c16::Animal*> objs;
     if (registered) {
@@ -285,11 +293,15 @@ static int vmap_experiment(bool registered, int threads, int iters) {
     for (auto& t : ts) {
         t.join();
     }
+    const bool ok = mismatches.load() == 0 &&
+        (!registered || c16::vmap_policy::vptrs.size() == size_before);
     std::printf(
-        "RESULT vmap-%s threads=%d iters=%d map_size_before=%zu "
-        "map_size_after=%zu mismatches=%ld\n",
-        registered ? "registered" : "unregistered", threads, iters, size_before,
-        c16::vmap_policy::vptrs.size(), mismatches.load());
+        "RESULT %s vmap-%s threads=%d iters=%d map_size_before=%zu "
+        "map_size_after=%zu mismatches=%ld comparisons=%zu\n",
+        ok ? "ok" : "mismatch", registered ? "registered" : "unregistered",
+        threads, iters, size_before, c16::vmap_policy::vptrs.size(),
+        mismatches.load(),
+        objs.size() * (std::size_t)threads * (std::size_t)iters);
     return 0;
 }
 
